@@ -44,7 +44,7 @@ def run_property(prop, tier, seed, replay_file=None):
         viols, consumed = E.validate(trace, prop + "-replay", parts=1)
         new, listed = E.classify(viols, prop, known)
         for v in new:
-            print("VIOLATION property=%s replay=%s  %s %s" % (prop, replay_file, v["w"], v["d"][:200]))
+            print("VIOLATION property=%s replay=%s  %s %s" % (prop, replay_file, v["w"], printable(v["d"][:200])))
         for v, k in listed:
             print("KNOWN-FINDING: property=%s %s %s" % (prop, k["id"], v["w"]))
         return 1 if new else 0
@@ -194,7 +194,7 @@ def run_property(prop, tier, seed, replay_file=None):
         seen.add(key)
         print("KNOWN-FINDING: property=%s %s (%s) %s" % (prop, k["id"], v["w"], k.get("what", "")))
     for v, p in all_new[:20]:
-        print("VIOLATION property=%s replay=%s  %s %s" % (prop, p, v["w"], v["d"][:300]))
+        print("VIOLATION property=%s replay=%s  %s %s" % (prop, p, v["w"], printable(v["d"][:300])))
 
     nontrivial = len({tuple(x) for i in per_instance for x in [(i["instance"], k) for k in range(i["validated"])]})
     coverage = dict(
@@ -212,6 +212,11 @@ def run_property(prop, tier, seed, replay_file=None):
                     "bounds of the instances (DESIGN.md 3.5): small-scope hypothesis beyond them",
                     "the reporter does not panic"])
     return 1 if all_new else 0
+
+
+def printable(x):
+    """Property values under test contain control characters on purpose: keep them out of the terminal."""
+    return "".join(ch if 32 <= ord(ch) < 127 else "?" for ch in str(x))
 
 
 def main(argv):
